@@ -221,6 +221,50 @@ func c05Families(tier string) []explore.Family {
 			r.Violation("P4:two-blocks:"+kind, map[string]any{"template": src}, strconv.Quote(want), o.String())
 		}
 	}})
+	// blocks of BOTH kinds in one template - every sequence of two or three raw / comment blocks, every body of the
+	// list above in each, at top level, inside a loop body that runs twice and inside a taken branch: each block ends at
+	// the end tag of its OWN kind, whatever kind the blocks before it were
+	var kindSeqs [][]string
+	for n := 2; n <= 3; n++ {
+		for m := 0; m < 1<<n; m++ {
+			var ks []string
+			for j := 0; j < n; j++ {
+				ks = append(ks, []string{"raw", "comment"}[m>>j&1])
+			}
+			kindSeqs = append(kindSeqs, ks)
+		}
+	}
+	mixWrap := []struct {
+		pre, post string
+		times     int
+	}{{"", "", 1}, {"{% for q in (1..2) %}", "{% endfor %}", 2}, {"{% if x %}", "{% else %}no{% endif %}", 1}}
+	nTb := len(tbBodies)
+	fams = append(fams, explore.Family{Name: "blocks-of-both-kinds", Count: int64(len(kindSeqs) * len(mixWrap) * nTb * nTb * nTb), Run: func(i int64, r *explore.Rec) {
+		rx := radix{i}
+		ks, wr := kindSeqs[rx.next(len(kindSeqs))], mixWrap[rx.next(len(mixWrap))]
+		bodies := []string{tbBodies[rx.next(nTb)], tbBodies[rx.next(nTb)], tbBodies[rx.next(nTb)]}
+		if len(ks) == 2 && bodies[2] != tbBodies[0] {
+			return // the third body is not used
+		}
+		seps := []string{"M{{ x }}N", "|", "."}
+		var src, want strings.Builder
+		for j, k := range ks {
+			src.WriteString("{% " + k + " %}" + bodies[j] + "{% end" + k + " %}" + seps[j])
+			if k == "raw" {
+				want.WriteString(bodies[j])
+			}
+			want.WriteString(strings.Replace(seps[j], "{{ x }}", "X", 1))
+		}
+		full := "<" + wr.pre + src.String() + wr.post + ">"
+		exp := "<" + strings.Repeat(want.String(), wr.times) + ">"
+		r.Eval()
+		r.Trace()
+		o := Render(c05.eng, full, map[string]any{"x": "X", "y": "Y"})
+		r.Class("both-kinds/" + strings.Join(ks, "+") + "/" + o.Class())
+		if o.Panic != nil || o.Err != nil || o.Out != exp {
+			r.Violation("P4:blocks-of-both-kinds:"+strings.Join(ks, "+"), map[string]any{"template": full}, strconv.Quote(exp), o.String())
+		}
+	}})
 	// raw and comment bodies are opaque for EVERY engine of the process: an engine with the delimiters
 	// [[ ]] [% %] and the default engine take turns on isomorphic bodies ({ } spelled [ ]), and the custom
 	// engine also gets the default-spelled body, which is plain text for it.
@@ -392,7 +436,7 @@ func init() {
 	explore.Register(&explore.Prop{
 		ID:    "C05",
 		Level: "exploration",
-		Rule: "all strings of length <=6 (quick) / <=8 (thorough) over the 8-character alphabet { % } - \" space newline a used as (1) whole source through parser.Scan at start lines 0/1/7 and through ParseAndRender, (2) raw body in three spellings, (3) comment body; " +
+		Rule: "all strings of length <=6 (quick) / <=8 (thorough) over the 8-character alphabet { % } - \" space newline a used as (1) whole source through parser.Scan at start lines 0/1/7 and through ParseAndRender, (2) raw body in three spellings, (3) comment body; every sequence of two or three raw/comment blocks of both kinds x 12 bodies each x {top level, loop body run twice, taken branch}; " +
 			"comment bodies from all sequences of <=3|4 lexical fragments incl. failing/probing constructs; all strings of length <=3|4 over a 19-symbol value alphabet (multi-byte, NUL, 0xFF, delimiter look-alikes) as string, []byte and *string values in five positions; every string of length <=3 repeated 16..16384 times; " +
 			"laws: partition, line numbers, text-only identity, raw verbatim, comment inert and unevaluated, value verbatim; class = token-kind sequence of the source (first 6 tokens) / outcome kind",
 		Assumptions: []string{"64 KiB inputs are represented by the scaled family only (repetitions of every string of length <=3)"},
